@@ -139,6 +139,8 @@ func (fr *Frame) ghostAt(kind string, ord int, name, when string, reach T, st *S
 		case "assert":
 			c := env.evalBool(g.Clause)
 			ex.oblige(fmt.Sprintf("at:%s@%d.%s", name, ord, clauseName(g.Clause, 0)), "assert", g.Clause.Props, reach, c, g.Clause.where(), g.Clause.Text)
+			// a proved assertion is available to everything that follows (cut)
+			ex.assumeKind("lemma", reach, c)
 		case "assume":
 			ex.assume(reach, env.evalBool(g.Clause))
 			ex.assumed["anchored assumption at "+relPath(g.Clause.where())+": "+g.Clause.Text] = true
@@ -249,7 +251,7 @@ func verifyFunc(L *Loaded, fc *FuncContract, fn *ssa.Function) (res *FuncResult)
 	// requires
 	env := fr.specEnv(st, fr.entry, nil, nil)
 	for _, r := range fc.Requires {
-		ex.assume(tTrue, env.evalBool(r))
+		ex.assumeKind("pre", tTrue, env.evalBool(r))
 	}
 	// ghost code at entry
 	fr.curBlock = fn.Blocks[0]
